@@ -253,3 +253,41 @@ def fmod_facts(x, y):
     r = fmod(x, y)
     return z3.And(z3.Implies(y > 0, z3.And(x == z3.ToReal(k) * y + r, r >= 0, r < y)),
                   z3.Implies(y < 0, z3.And(x == z3.ToReal(k) * y + r, r <= 0, r > y)))
+
+
+_elems_funcs: dict = {}
+
+
+def seq_elems(term, elem_sort):
+    """The set of elements of a sequence.  For a sequence built from a literal list (Concat of Units) it is the
+    explicit finite set; otherwise an uninterpreted function of the sequence (contracts that only care about
+    *which* elements a list holds then need no index arithmetic)."""
+    lit = _literal_elems(term)
+    if lit is not None:
+        s = z3.K(elem_sort, z3.BoolVal(False))
+        for e in lit:
+            s = z3.Store(s, e, True)
+        return s
+    key = elem_sort.name()
+    if key not in _elems_funcs:
+        _elems_funcs[key] = z3.Function("elems_" + key, z3.SeqSort(elem_sort), z3.ArraySort(elem_sort, z3.BoolSort()))
+    return _elems_funcs[key](term)
+
+
+def _literal_elems(term):
+    if not z3.is_app(term):
+        return None
+    k = term.decl().kind()
+    if k == z3.Z3_OP_SEQ_EMPTY:
+        return []
+    if k == z3.Z3_OP_SEQ_UNIT:
+        return [term.arg(0)]
+    if k == z3.Z3_OP_SEQ_CONCAT:
+        out = []
+        for a in term.children():
+            sub = _literal_elems(a)
+            if sub is None:
+                return None
+            out.extend(sub)
+        return out
+    return None
